@@ -321,4 +321,47 @@ theorem step_frame (w : World) (op : Op) (hw : w.Inv) (j : Nat) (hj : j ∉ op.t
     simp only [step]
     split <;> rfl
 
+/-! ### lifting to histories, small facts used by the property theorems -/
+
+theorem run_Inv (w : World) (ops : List Op) (hw : w.Inv) : (run w ops).Inv := by
+  unfold run
+  induction ops generalizing w with
+  | nil => exact hw
+  | cons op t ih => exact ih (step w op).1 (step_Inv w op hw)
+
+theorem validateAgainst_iff (elems : List (Name × TS)) (data : List (Name × Val)) :
+    validateAgainst elems data = true ↔
+      ∀ p ∈ elems, ∀ v, alookup data p.1 = some v → hasType p.2 v = true := by
+  unfold validateAgainst
+  rw [List.all_eq_true]
+  constructor
+  · intro h p hp v hv
+    have := h p hp
+    simp only [hv] at this
+    exact this
+  · intro h p hp
+    cases hv : alookup data p.1 with
+    | none => rfl
+    | some v => exact h p hp v hv
+
+theorem query_targets (op : Op) (h : op.isQuery = true) : op.targets = [] := by
+  cases op <;> simp [Op.isQuery] at h <;> rfl
+
+theorem run_frame (w : World) (ops : List Op) (hw : w.Inv) (j : Nat) (hj : ∀ op ∈ ops, j ∉ op.targets) :
+    ((run w ops).get j).map Grammar.pub = (w.get j).map Grammar.pub := by
+  unfold run
+  induction ops generalizing w with
+  | nil => rfl
+  | cons op t ih =>
+    simp only [List.foldl_cons]
+    rw [ih (step w op).1 (step_Inv w op hw) (fun o ho => hj o (List.mem_cons_of_mem _ ho))]
+    exact step_frame w op hw j (hj op (List.mem_cons_self ..))
+
+theorem liftE_err (w : World) (s : Nat) (r : Except Err Grammar) (e : Err) (h : (liftE w s r).2 = .err e) :
+    (liftE w s r).1 = w := by
+  unfold liftE at *
+  cases r with
+  | error e' => rfl
+  | ok g => cases h
+
 end GV.C15
